@@ -413,6 +413,34 @@ theorem assign_lookup (d : String → α) (keys : List String) (key : String) (v
       · exact absurd e hx
       · exact ih e
 
+theorem seqFrom_congr {d d' : String → α} {keys : List String} (h : ∀ k ∈ keys, d k = d' k)
+    (n : Nat) (es : List (Param α)) : seqFrom d keys n es = seqFrom d' keys n es := by
+  induction es generalizing n with
+  | nil => rfl
+  | cons p ps ih =>
+    simp only [seqFrom, ih]
+    congr 1
+    apply List.ext_getElem?
+    intro i
+    simp only [List.getElem?_mapIdx]
+    congr 1
+    funext v
+    have : assign d keys p.key v = assign d' keys p.key v := by
+      unfold assign
+      apply List.map_congr_left
+      intro k hk
+      rw [h k hk]
+    rw [this]
+
+/-- **the configured values are those of the current call**: the runs of a sequential observation depend
+on the configuration only through the configured values of the swept keys of the processor handed to
+*this* call — two calls (with the same `Observation`) on configurations that agree on those keys give
+the same runs, and nothing else (no earlier call, no other setting) enters. -/
+theorem sequential_defaults_of_current_call {d d' : String → α} (ps : List (Param α))
+    (h : ∀ k ∈ ekeys ps, d k = d' k) : sequentialRuns d ps = sequentialRuns d' ps := by
+  unfold sequentialRuns
+  exact seqFrom_congr (fun k hk => h k (List.mem_eraseDups.mp hk)) 0 _
+
 -- non-vacuity: 2 + 3 runs, defaults kept for the other key
 example :
     sequentialRuns (fun k => if k = "a" then 100 else 200)
